@@ -1281,7 +1281,7 @@ static void
 send_raw_udp_login(int dns_fd, int seed)
 {
 	char buf[16];
-	login_calculate(buf, 16, password, seed + 1);
+	login_calculate(buf, 16, password, (int) ((unsigned int) seed + 1));
 
 	send_raw(dns_fd, buf, sizeof(buf), RAW_HDR_CMD_LOGIN);
 }
@@ -1503,7 +1503,7 @@ handshake_raw_udp(int dns_fd, int seed)
 			len = recv(dns_fd, in, sizeof(in), 0);
 			if (len >= (16 + RAW_HDR_LEN)) {
 				char hash[16];
-				login_calculate(hash, 16, password, seed - 1);
+				login_calculate(hash, 16, password, (int) ((unsigned int) seed - 1));
 				if (memcmp(in, raw_header, RAW_HDR_IDENT_LEN) == 0
 					&& RAW_HDR_GET_CMD(in) == RAW_HDR_CMD_LOGIN
 					&& memcmp(&in[RAW_HDR_LEN], hash, sizeof(hash)) == 0) {
